@@ -164,14 +164,24 @@ def run(ctx):
                     "edgegraph.builder.adjmatrix", "edgegraph.builder.explicit"])
     n = 0
     for name, qual, thunk in accessors(h):
-        for mode in ("caching-off", "caching-cold", "caching-warm"):
+        for mode in ("caching-off", "caching-cold", "caching-warm", "caching-warm-then-switched-off"):
             try:
                 V, E, U, L, roots = graph(h, caching=(mode != "caching-off"))
-                first = thunk(V, E, U, L) if mode == "caching-warm" else None
+                first = thunk(V, E, U, L) if mode in ("caching-warm", "caching-warm-then-switched-off") else None
+                if mode == "caching-warm-then-switched-off":
+                    h.fn("edgegraph.structure.vertex.Vertex").dict["NEIGHBOR_CACHING"] = False       # the memo entries of the first call stay where they are
                 out = thunk(V, E, U, L)
-                again = thunk(V, E, U, L)
                 if out.kind == "return" and isinstance(out.value, (GenV, IterV)):
                     out.value = Seq(h.I.iterate(out.value), "list")
+                # what the first result shares with the internal state is read off *before* the next call (which may replace a memo entry)
+                early = None
+                if out.kind == "return":
+                    internal0 = internal_containers(h, roots)
+                    for c, path in exposed_containers(out.value):
+                        if id(c) in internal0:
+                            early = f"{path} is the internal container {internal0[id(c)]} itself (mutating it changes the graph or later answers)"
+                            break
+                again = thunk(V, E, U, L)
             except Unknown as u:
                 res.ob(False)
                 res.undecide(f"accessor {name} ({mode}): {u}")
@@ -181,8 +191,9 @@ def run(ctx):
             if out.kind != "return":
                 why = f"raises {out.excname}"
             else:
+                why = early
                 internal = internal_containers(h, roots)
-                for c, path in exposed_containers(out.value):
+                for c, path in (exposed_containers(out.value) if why is None else []):
                     if id(c) in internal:
                         why = f"{path} is the internal container {internal[id(c)]} itself (mutating it changes the graph or later answers)"
                         break
@@ -210,7 +221,7 @@ def run(ctx):
 
 def replay_out(name, mode):
     return "\n".join(["from edgegraph.structure import *", "from edgegraph.traversal import helpers",
-                      f"Vertex.NEIGHBOR_CACHING = {mode != 'caching-off'}",
+                      f"Vertex.NEIGHBOR_CACHING = {mode != 'caching-off'}" + ("   # ... make the call once, then set Vertex.NEIGHBOR_CACHING = False" if mode == "caching-warm-then-switched-off" else ""),
                       "a, b = Vertex(), Vertex(); e = DirectedEdge(a, b)",
                       "r1 = helpers.neighbors(a); r1.append('junk')" if "neighbors" in name else f"# accessor: {name}",
                       "print(helpers.neighbors(a))   # must still be [b]"])
